@@ -25,7 +25,7 @@
 #include "msa_alloc.h"
 #include "msa_io.h"
 #include "msa_op.h"
-#include "msa_misc.h"
+int GCGchecksum(char *seq, int len);      /* (declared here, not via msa_misc.h: a renamed header is not a change of behaviour) */
 
 int kv_io_detect_format(char *path, int *type);
 int kv_io_read_as(char *path, int type, struct msa **out);
